@@ -22,13 +22,17 @@ def trivia_cases(modes, workers=8, stride=1, offset=0):
 
 
 def lits(patterns):
-    """except patterns restricted to literals, optionally anchored with ^ (see TextTrace!MatchesPat)."""
+    """except patterns restricted to literals, optionally anchored with ^ and / or case-insensitive with a leading (?i)
+    (see TextTrace!MatchesPat)."""
     out = []
     for p in patterns:
+        ci = 1 if p.startswith("(?i)") else 0          # an inline flag scoped to THIS pattern only
+        if ci:
+            p = p[4:]
         anchored = 1 if p.startswith("^") else 0
         lit = p[1:] if anchored else p
         assert not any(ch in lit for ch in ".*+?()[]{}|\\$^"), "literal patterns only"
-        out.append({"anchored": anchored, "lit": list(lit.encode())})
+        out.append({"anchored": anchored, "ci": ci, "lit": list(lit.encode())})
     return out
 
 
